@@ -1255,10 +1255,82 @@ Print Assumptions loopir_CORRELATION_model.
 Print Assumptions loopir_CORRELATION_tie.
 """
 
+# ---------------------------------------------------------------- levup, levdown: translation + theorem
+LEVUP_PROOF = 'Proofs/LoopIRLevup.v'
+LEVUP_THEOREMS = ['loopir_levup_model', 'loopir_levup_tie']
+LEVUP_BLOCK = """
+(* The program regenerated on this run is, term for term, the one Proofs/LoopIRLevup.v is about: its theorems apply. *)
+Require Import Spectrum.Theory.Ops Spectrum.Theory.Vec Spectrum.Model.Levinson Spectrum.Model.LoopIRTie Spectrum.Proofs.LoopIRLevup.
+Lemma prog_levup_is_ref : prog_levup = prog_levup_ref.
+Proof. reflexivity. Qed.
+Theorem loopir_levup_model :
+  forall (F : Type) (OF : Ops F) (L : Laws OF) (feq : F -> F -> bool) (stop : Z -> F -> F -> bool)
+         (t : bool) (acur : list F) (k : F) (e : option F),
+  run feq stop prog_levup [Some (VArr t acur); Some (VF k); option_map VF e] =
+  match acur with
+  | [] => OErr IndexError
+  | a0 :: _ =>
+      if negb (feq a0 1%F) then OErr ValueError
+      else ORet [VArr false (fst (levup acur k 0%F));
+                 match e with Some z => VF (snd (levup acur k z)) | None => VNone end]
+  end.
+Proof. intros. rewrite prog_levup_is_ref. apply levup_ir_run. Qed.
+Theorem loopir_levup_tie :
+  forall (F : Type) (OF : Ops F) (L : Laws OF) (feq : F -> F -> bool), (forall a, feq a a = true) ->
+  forall (acur : list F) (k : F) (e : option F), acur <> [] -> tie_levup feq prog_levup acur k e = true.
+Proof. intros. rewrite prog_levup_is_ref. apply levup_ir_tie; assumption. Qed.
+Print Assumptions loopir_levup_model.
+Print Assumptions loopir_levup_tie.
+"""
+LEVDOWN_PROOF = 'Proofs/LoopIRLevdown.v'
+LEVDOWN_THEOREMS = ['loopir_levdown_model', 'loopir_levdown_chk', 'loopir_levdown_tie']
+LEVDOWN_BLOCK = """
+(* The program regenerated on this run is, term for term, the one Proofs/LoopIRLevdown.v is about: its theorems apply. *)
+Require Import Spectrum.Theory.Ops Spectrum.Theory.Vec Spectrum.Model.Levinson Spectrum.Model.LinPred Spectrum.Model.LoopIRTie Spectrum.Proofs.LoopIRLevdown.
+Lemma prog_levdown_is_ref : prog_levdown = prog_levdown_ref.
+Proof. reflexivity. Qed.
+Theorem loopir_levdown_model :
+  forall (F : Type) (OF : Ops F) (L : Laws OF) (feq : F -> F -> bool) (stop : Z -> F -> F -> bool)
+         (t : bool) (anxt : list F) (e : option F),
+  run feq stop prog_levdown [Some (VArr t anxt); option_map VF e] =
+  match anxt with
+  | [] => OErr IndexError
+  | a0 :: a =>
+      if negb (feq a0 1%F) then OErr ValueError
+      else match a with
+           | [] => OErr IndexError
+           | _ :: _ =>
+               if feq (nthF anxt (length anxt - 1)) 1%F then OErr ValueError
+               else ORet [VArr false (fst (levdown anxt 0%F));
+                          match e with Some z => VF (snd (levdown anxt z)) | None => VNone end]
+           end
+  end.
+Proof. intros. rewrite prog_levdown_is_ref. apply levdown_ir_run. Qed.
+Theorem loopir_levdown_chk :
+  forall (F : Type) (OF : Ops F) (L : Laws OF) (feq : F -> F -> bool) (stop : Z -> F -> F -> bool)
+         (t : bool) (anxt : list F) (e : option F),
+  (2 <= length anxt)%nat ->
+  run feq stop prog_levdown [Some (VArr t anxt); option_map VF e] =
+  match @levdown_chk F OF feq anxt (match e with Some z => z | None => 0%F end) with
+  | None => OErr ValueError
+  | Some (a', e') => ORet [VArr false a'; match e with Some _ => VF e' | None => VNone end]
+  end.
+Proof. intros. rewrite prog_levdown_is_ref. apply levdown_ir_chk; assumption. Qed.
+Theorem loopir_levdown_tie :
+  forall (F : Type) (OF : Ops F) (L : Laws OF) (feq : F -> F -> bool), (forall a, feq a a = true) ->
+  forall (anxt : list F) (e : option F), (2 <= length anxt)%nat -> tie_levdown feq prog_levdown anxt e = true.
+Proof. intros. rewrite prog_levdown_is_ref. apply levdown_ir_tie; assumption. Qed.
+Print Assumptions loopir_levdown_model.
+Print Assumptions loopir_levdown_chk.
+Print Assumptions loopir_levdown_tie.
+"""
+
 # routine -> the proof file its reference program text lives in, the theorems the generated file instantiates, the block that does it
 THEOREMS = {
     'LEVINSON': dict(proof=LEV_PROOF, theorems=LEV_THEOREMS, block=LEV_BLOCK),
     'CORRELATION': dict(proof=COR_PROOF, theorems=COR_THEOREMS, block=COR_BLOCK),
+    'levup': dict(proof=LEVUP_PROOF, theorems=LEVUP_THEOREMS, block=LEVUP_BLOCK),
+    'levdown': dict(proof=LEVDOWN_PROOF, theorems=LEVDOWN_THEOREMS, block=LEVDOWN_BLOCK),
 }
 
 
